@@ -1462,7 +1462,7 @@ promote_to_int (parse_node_t * node)
   if (node->kind == NODE_REAL)
     {
       node->kind = NODE_NUMBER;
-      node->v.number = (int)node->v.real; /* truncate decimal part */
+      node->v.number = (int64_t)node->v.real; /* truncate decimal part */
       return node;
     }
   expr = new_node ();
